@@ -57,6 +57,39 @@ def table(tier):
         m = {"meta": dict({"default_must_getter": merged}, **({"pkg": "main"} if d2 is None else {})), "services": dict(base["services"])}
         m["__files__"] = [base, over]
         rows.append(("two-files-default", m))
+    # getters that differ only in letter case are different Go identifiers: both services get their methods
+    for g1, g2 in [("getDB", "GetDB"), ("GetX", "GETX"), ("getx", "getX"), ("Db", "DB")]:
+        for mg in (None, True):
+            sv = lambda g: dict({"value": "Value", "getter": g, "type": "T"}, **({"must_getter": True} if mg else {}))
+            rows.append(("case-twins", {"services": {"a": sv(g1), "b": sv(g2)}}))
+    rows.append(("case-twins", {"services": {"svc": {"value": "Value", "getter": "GetIt"}, "SVC": {"value": "Value", "getter": "GetIT"}, "Svc": {"value": "Value"}}}))
+    # the truth table for the other creation methods (a value, a bare type)
+    for create, ty, mg, dmg in itertools.product(["value", "type"], [None, "T", "*\"gv.test/fix/alpha\".Srv"], [None, True, False], [None, True, False]):
+        if create == "type" and ty is None:
+            continue
+        if tier == "quick" and (mg, dmg) not in ((None, None), (True, None), (None, True), (False, True), (True, False)):
+            continue
+        for getter in (None, "GetIt"):
+            sv = {"value": "Value"} if create == "value" else {}
+            if create == "value" and ty and "alpha" in ty:
+                sv = {"value": "&\"gv.test/fix/alpha\".Srv{}"}
+            if getter:
+                sv["getter"] = getter
+            if ty:
+                sv["type"] = ty
+            if mg is not None:
+                sv["must_getter"] = mg
+            cfg = {"services": {"svc": sv, "plain": {"constructor": "NewA"}}}
+            if dmg is not None:
+                cfg["meta"] = {"default_must_getter": dmg}
+            rows.append(("table-" + create, cfg))
+    # every subset of the three configurable names (the others keep their defaults)
+    NM = {"pkg": "di", "container_type": "Crate", "container_constructor": "NewCrate"}
+    for r_ in (1, 2):
+        for sub in itertools.combinations(sorted(NM), r_):
+            rows.append(("names-subset", {"meta": {k_: NM[k_] for k_ in sub}, "services": {"svc": {"constructor": "NewA", "getter": "GetIt", "type": "*T", "must_getter": True}}}))
+    rows.append(("names-subset", {"meta": {"container_type": "gontainer", "container_constructor": "newGontainer"}, "services": {"svc": {"constructor": "NewA", "getter": "GetIt"}}}))
+    rows.append(("names-subset", {"meta": {"container_type": "NewGontainer", "container_constructor": "Gontainer"}, "services": {"svc": {"constructor": "NewA", "getter": "GetIt"}}}))
     rows.append(("collision-derived2", {"meta": {"default_must_getter": True}, "services": {"a": {"value": "Value", "getter": "GetA"}, "b": {"value": "Value", "getter": "GetB"}, "c": {"value": "Value"}}}))
     return rows
 
@@ -149,6 +182,9 @@ def run(tier, seed, replay):
         meta = cfg.get("meta") or {}
         ct = meta.get("container_type", "Gontainer")
         want_pkg, want_ctor = meta.get("pkg", "main"), meta.get("container_constructor", "NewGontainer")
+        mlist = [m["name"] for m in (api["methods"] or []) if not m["name"].startswith("_") and m["recv"] == ["*" + ct]]
+        if len(set(mlist)) != len(mlist):
+            out.violation("method-declared-twice:%s" % kind, "a method is declared more than once: %s" % sorted(n for n in set(mlist) if mlist.count(n) > 1), rep)
         got = {m["name"]: (m["params"] or [], m["results"] or []) for m in (api["methods"] or []) if not m["name"].startswith("_") and m["recv"] == ["*" + ct]}
         want = {n: (p, [spec_type(x) for x in r]) for n, (p, r) in methods.items()}
         if got != want:
@@ -159,7 +195,8 @@ def run(tier, seed, replay):
         if len(samples) < 4 and len(want) == 4 and kind == "table":
             samples.append({"config": cfggen.to_yaml(cfg), "methods": sorted(got)})
     # compile a sample (duplicate / colliding declarations are compile errors)
-    items = [("c%04d" % k, obs[k]["out_content"]) for k in acc][: (60 if tier == "quick" else 400)]
+    acc_sorted = sorted(acc, key=lambda k: (specs[k]["what"][0] == "table", k))     # directed rows first
+    items = [("c%04d" % k, obs[k]["out_content"]) for k in acc_sorted][: (200 if tier == "quick" else 800)]
     errs, unstable, init_fail = codegen.compile_batch(items)
     for name, lines in errs.items():
         if name != "_batch":
